@@ -8,6 +8,7 @@ EXPLANATION = (
     "client info) stores its argument under the same key with the same class through the RLP encoder, so reader class = writer class per key; socket getters are "
     "exactly Some(new(ipX()?, portX()?)) and None only when a part is None; reachability flags are the disjunction of the two socket getters; set_socket chooses "
     "the address family by the socket's own address. Not decided: per-value exhaustiveness over 65 536 ports / all addresses - that is alloy-rlp's integer codec."
+    " Re-uses C07 ONCE (a setter that reports success performed exactly one committed update)."
 )
 TRUSTED = ["alloy-rlp u16/Bytes/Vec<Bytes> codecs are canonical and mutually inverse (rlpclass.py)"]
 ASSUMPTIONS = ["INV-RLP (C05): a stored value is exactly one RLP item, so a class decoder consumes it all"]
@@ -18,3 +19,15 @@ def run(ctx, report):
     api.writers_rule(ctx, report, "WRITE")
     api.client_info_writers(ctx, report, "CLIENT")
     api.set_socket_rule(ctx, report, "SOCKET")
+
+
+_own_run = run
+
+
+def run(ctx, report):
+    _own_run(ctx, report)
+    from common import Only
+    from rules import c07
+    # "what a typed setter stores ... reads back as the value set": a setter that reports success stored something
+    c07.run(ctx, Only(report, {"ONCE": "ONCE"}))
+
